@@ -12,7 +12,8 @@ points are read off.  The oracle shares no code with the model.
         boxes = pairs^3 (pairs "a:b,c:d,.." = per-axis (min,max)), origins in
         [-2,2]^3, directions in [-2,2]^3 \ {0}; box and origin are translated by
         (ox,oy,oz) and scaled by 2^sh (exact in binary floating point).
-        One line per box: `<box> <fullModel> <specOracle> <nFeHit> <nIsHit> <nModelVsSpec>`
+        One line per box: `<box> <fullModel> <specOracle> <nFeHit> <nIsHit> <nModelVsSpec> <tieModel>`
+        (tie = what the property specifies: booleans always, points only when the result is true)
   lines <pairs> <ox> <oy> <oz> <sh> <box>     per-case text of one box (model and spec)
   case  <T> <12 numbers>                         one case; numbers are `n/d`, `n` or `x<16 hex digits of a double>`
   sweep                                       float guard sweep oracle, blocks read from stdin (see below)
@@ -192,12 +193,14 @@ structure BoxSummary where
   nFe : Nat
   nIs : Nat
   nDiff : Nat
+  tie : UInt64
 deriving Inhabited
 
 def Lat.runBox (L : Lat) (T : Q) (bi : Nat) : BoxSummary := Id.run do
   let b := L.box bi
   let mut hf : UInt64 := 1469598103934665603
   let mut hs : UInt64 := 1469598103934665603
+  let mut ht : UInt64 := 1469598103934665603
   let mut nFe := 0
   let mut nIs := 0
   let mut nDiff := 0
@@ -208,10 +211,11 @@ def Lat.runBox (L : Lat) (T : Q) (bi : Nat) : BoxSummary := Id.run do
     let s := spec r b
     hf := fullHash hf m
     hs := specHash hs s
+    ht := mixB (modelSpecHash ht m) m.isBool
     if m.feHit then nFe := nFe + 1
     if m.isHit then nIs := nIs + 1
     if modelSpecHash 7 m != specHash 7 s then nDiff := nDiff + 1
-  return ⟨hf, hs, nFe, nIs, nDiff⟩
+  return ⟨hf, hs, nFe, nIs, nDiff, ht⟩
 
 def parseLat (pairs ox oy oz sh : String) : Lat :=
   ⟨parsePairs pairs, ox.toInt!, oy.toInt!, oz.toInt!, sh.toInt!⟩
@@ -520,7 +524,7 @@ def main (args : List String) : IO Unit := do
     let res ← runTasks 16 lo hi (fun bi => L.runBox tmaxDouble bi)
     for i in [0:hi - lo] do
       let s := res[i]!
-      out.putStrLn s!"{lo + i} {s.full.toNat} {s.spec.toNat} {s.nFe} {s.nIs} {s.nDiff}"
+      out.putStrLn s!"{lo + i} {s.full.toNat} {s.spec.toNat} {s.nFe} {s.nIs} {s.nDiff} {s.tie.toNat}"
   | ["lines", pairs, ox, oy, oz, sh, bi] =>
     let L := parseLat pairs ox oy oz sh
     let b := L.box bi.toNat!
